@@ -96,7 +96,8 @@ def a2_a5(chk, repo):
     def G(path, data=None, attrs=None):
         return Obj("Group", OrderedDict(path=Const(path), url=Const("u"), data=data or DictS(), attrs=attrs or DictS()))
 
-    products = [["IMG-HH-P-1.5"], ["IMG-HH-P-1.1", "IMG-HV-P-1.1"], ["IMG-HH-P-B1", "IMG-HH-P-B2", "IMG-HH-P-B3", "IMG-HV-P-B1", "IMG-HV-P-B2", "IMG-HV-P-B3"]]
+    products = [["IMG-HH-P-1.5"], ["IMG-HH-P-1.1", "IMG-HV-P-1.1"], ["IMG-HH-P-B1", "IMG-HH-P-B2", "IMG-HH-P-B3", "IMG-HV-P-B1", "IMG-HV-P-B2", "IMG-HV-P-B3"],
+                ["IMG-VV-P-1.1", "IMG-VH-P-1.1"], ["IMG-HH-P-B2", "IMG-HV-P-B2", "IMG-HH-P-B1", "IMG-HV-P-B1"]]  # the last two: not in lexicographic order in the summary
     results = []
     for images in products:
         I = Interp(repo)
@@ -130,6 +131,10 @@ def a2_a5(chk, repo):
             return a2_a5_syntactic(chk, repo, note=f"model evaluation not possible ({str(e)[:80]})")
         if not (isinstance(out, Obj) and out.cls == "Group" and isinstance(out.fields.get("data"), DictS) and isinstance(out.fields.get("attrs"), DictS)):
             return a2_a5_syntactic(chk, repo, note="model evaluation does not give a definite tree")
+        listed = [x.v if isinstance(x, Const) else None for x in roles.items["sar_imagery"].elts] if isinstance(roles.items.get("sar_imagery"), ListLit) else None
+        chk.require(listed == images, "C13-A2", where, "the file list published under summary/product_information/data_files is left as the summary gives it",
+                    f"after io.open the summary's own list of image files reads {listed}, the summary file lists {images}: opening re-orders / edits the published attribute in place",
+                    key="open:summary-list-untouched")
         results.append((images, out, calls, marks))
     for images, out, calls, marks in results:
         n = len(images)
